@@ -65,20 +65,89 @@ def sentinel_code(sentdir, name):
             % (sentdir, name))
 
 
-def module_body(sentdir, name):
+DOC_STYLES = ['numpy', 'sphinx', 'epydoc', 'plain', 'none']
+
+
+def docstrings_for(style, tag):
+    """(function docstring, class docstring): the types named are classes of the module itself"""
+    t = 'Cls_' + tag
+    if style == 'numpy':
+        return ('    """\n    Do something.\n\n    Parameters\n    ----------\n    a : %s\n        first\n'
+                '    b : int, optional\n\n    Returns\n    -------\n    %s\n        the result\n    """\n' % (t, t),
+                '    """\n    Parameters\n    ----------\n    content : %s\n    """\n' % t)
+    if style == 'sphinx':
+        return ('    """\n    Do something.\n\n    :param a: first\n    :type a: %s\n    :rtype: %s\n    """\n' % (t, t),
+                '    """\n    :type content: %s\n    """\n' % t)
+    if style == 'epydoc':
+        return ('    """\n    Do something.\n\n    @type a: %s\n    @rtype: %s\n    """\n' % (t, t),
+                '    """\n    @type content: %s\n    """\n' % t)
+    if style == 'plain':
+        return ('    """Do something with a and b, give it back."""\n', '    """A class."""\n')
+    return ('', '')
+
+
+def module_body(sentdir, name, style='none'):
     tag = name.replace('.', '_').replace('/', '_')
+    fdoc, cdoc = docstrings_for(style, tag)
     return (sentinel_code(sentdir, name) +
-            "VALUE_%s = 1\n\n\ndef func_%s(a, b=2):\n    return a\n\n\nclass Cls_%s:\n    attr = 1\n\n"
-            "    def meth(self, x):\n        return x\n" % (tag, tag, tag))
+            "VALUE_%s = 1\n\n\ndef func_%s(a, b=2):\n%s    return a\n\n\nclass Cls_%s:\n%s    attr = 1\n\n"
+            "    def __init__(self, content=None):\n        self.content = content\n\n"
+            "    def meth(self, x):\n        return x\n" % (tag, tag, fdoc, tag, cdoc))
 
 
-def make_project(root, rng):
+def host_import_names(jedi_dir):
+    """dotted names that jedi's own `import` statements mention and that the process running jedi cannot
+    resolve (optional dependencies, imported lazily in the host): a project file of that name is the only
+    candidate such a statement could ever find.  Read off the sources of the jedi under test."""
+    import ast
+    import importlib.util
+    found = set()
+    for root_, dirs, files in os.walk(jedi_dir):
+        dirs[:] = [x for x in dirs if x not in ('third_party', '__pycache__')]
+        for fn in files:
+            if not fn.endswith('.py'):
+                continue
+            try:
+                with open(os.path.join(root_, fn), encoding='utf-8') as f:
+                    tree = ast.parse(f.read())
+            except (OSError, SyntaxError):
+                continue
+            for n in ast.walk(tree):
+                if isinstance(n, ast.Import):
+                    names = [a.name for a in n.names]
+                elif isinstance(n, ast.ImportFrom) and n.level == 0 and n.module:
+                    names = [n.module]
+                else:
+                    continue
+                for nm in names:
+                    top = nm.split('.')[0]
+                    if top in ('jedi', 'parso', '__main__') or top in sys.modules:
+                        continue
+                    try:
+                        spec = importlib.util.find_spec(top)
+                    except (ImportError, ValueError):
+                        spec = None
+                    if spec is None:
+                        found.add(nm)
+    return sorted(found)
+
+
+def make_project(root, rng, host_names=()):
     """returns description of the tree; every importable file writes a sentinel"""
     sent = os.path.join(root, '_sentinels')
     proj = os.path.join(root, 'proj')
     os.makedirs(sent)
     os.makedirs(proj)
     mods = []
+    files = {}
+
+    def write(rel, name):
+        path = os.path.join(proj, rel)
+        os.makedirs(os.path.dirname(path), exist_ok=True)
+        text = module_body(sent, name, DOC_STYLES[rng.randrange(len(DOC_STYLES))])
+        with open(path, 'w') as f:
+            f.write(text)
+        files[rel] = text
     names = [n for n in ADVERSARIAL if rng.random() < 0.75]
     if 'gi' not in names and rng.random() < 0.6:
         names.append('gi')
@@ -87,22 +156,29 @@ def make_project(root, rng):
     gi_pkg = rng.random() < 0.5
     for n in names:
         if n == 'gi' and gi_pkg:
-            os.makedirs(os.path.join(proj, 'gi'))
-            with open(os.path.join(proj, 'gi', '__init__.py'), 'w') as f:
-                f.write(module_body(sent, 'gi'))
-            with open(os.path.join(proj, 'gi', 'repository.py'), 'w') as f:
-                f.write(module_body(sent, 'gi.repository'))
+            write('gi/__init__.py', 'gi')
+            write('gi/repository.py', 'gi.repository')
             mods += ['gi', 'gi.repository']
         else:
-            with open(os.path.join(proj, n + '.py'), 'w') as f:
-                f.write(module_body(sent, n))
+            write(n + '.py', n)
             mods.append(n)
     # a package with a submodule and its own conftest
-    os.makedirs(os.path.join(proj, 'pkg'))
     for n in ('__init__', 'sub', 'conftest'):
-        with open(os.path.join(proj, 'pkg', n + '.py'), 'w') as f:
-            f.write(module_body(sent, 'pkg.' + n))
+        write('pkg/%s.py' % n, 'pkg.' + n)
     mods += ['pkg', 'pkg.sub']
+    # files named like the modules jedi itself tries to import in the host (optional dependencies)
+    for dotted in host_names:
+        if rng.random() < 0.8:
+            parts = dotted.split('.')
+            for i in range(1, len(parts) + 1):
+                sub = '.'.join(parts[:i])
+                if sub in mods:
+                    continue
+                if i < len(parts) or any(o.startswith(sub + '.') for o in host_names) or rng.random() < 0.5:
+                    write('/'.join(parts[:i]) + '/__init__.py', sub)
+                else:
+                    write('/'.join(parts[:i]) + '.py', sub)
+                mods.append(sub)
     extras = []
     if rng.random() < 0.7:
         with open(os.path.join(proj, 'evil.pth'), 'w') as f:
@@ -133,7 +209,9 @@ def make_project(root, rng):
             f.write('#!/usr/bin/python\n' + sentinel_code(sent, 'bin.runner') +
                     "import sys\nsys.path[0:0] = [%r]\n" % os.path.join(proj, 'pkg'))
         extras.append('buildout')
-    return {'root': root, 'proj': proj, 'sent': sent, 'mods': mods, 'extras': extras}
+    pymods = [m for m in mods if m not in ('pyconly', 'fakeext')]
+    return {'root': root, 'proj': proj, 'sent': sent, 'mods': mods, 'extras': extras, 'files': files,
+            'pymods': pymods}
 
 
 def make_buffer(desc, rng):
@@ -158,6 +236,14 @@ def make_buffer(desc, rng):
         if rng.random() < 0.5:
             lines.append('%s.func_%s(' % (ref, tag))
             probes.append((len(lines), len(lines[-1]), 'call'))
+        if m in desc.get('pymods', ()) and rng.random() < 0.6:
+            # the value of a call / an attribute of an instance: jedi has to look into the function
+            lines.append('res_%s = %s.func_%s(%s.VALUE_%s)' % (tag, ref, tag, ref, tag))
+            lines.append('res_%s' % tag)
+            probes.append((len(lines), len(lines[-1]), 'result'))
+            lines.append('obj_%s = %s.Cls_%s(res_%s)' % (tag, ref, tag, tag))
+            lines.append('obj_%s.content' % tag)
+            probes.append((len(lines), len(lines[-1]), 'instattr'))
     lines.append('from normal import func_normal as fn_alias')
     lines.append('result = fn_alias(1)')
     probes.append((len(lines), 10, 'alias'))
@@ -165,7 +251,20 @@ def make_buffer(desc, rng):
     probes.append((len(lines), 7, 'import-complete'))
     lines.append('from gi.repository import Gtk')
     probes.append((len(lines), len(lines[-1]), 'gi'))
+    probes = [p + (None,) for p in probes]
+    # positions inside the planted files themselves (the file is the analysed buffer): a documented parameter
+    for rel, text in sorted(desc.get('files', {}).items()):
+        if rng.random() < 0.5:
+            continue
+        tl = text.split('\n')
+        for needle, kind in (('    return a', 'param'), ('        self.content = content', 'init-param')):
+            if needle in tl:
+                probes.append((tl.index(needle) + 1, len(needle), kind, rel))
     return '\n'.join(lines) + '\n', probes
+
+
+DEEP_KINDS = ('result', 'instattr', 'param', 'init-param')
+DEEP_METHODS = ('infer', 'help', 'goto', 'complete', 'get_signatures')
 
 
 METHODS = ['complete', 'infer', 'goto', 'help', 'get_references', 'get_signatures', 'get_context',
@@ -222,7 +321,9 @@ class Host:
                 fn = getattr(args[0], 'co_filename', None)
                 rec.append(('exec', fn))
             elif event == 'import':
-                rec.append(('import', args[0]))
+                # (module, filename, sys.path, sys.meta_path, sys.path_hooks): the search path this very
+                # import statement of the host is resolved against
+                rec.append(('import', (args[0], list(args[2]) if args[2] is not None else None)))
         sys.addaudithook(hook)
 
         from jedi.inference import imports, compiled
@@ -292,7 +393,7 @@ def run_project_case(case):
     os.makedirs(root)
     out = {'id': case['id'], 'queries': [], 'helper': None}
     try:
-        desc = make_project(root, rng)
+        desc = make_project(root, rng, case.get('host_names') or ())
         src, probes = make_buffer(desc, rng)
         log_file = os.path.join(root, 'helper.log')
         open(log_file, 'w').close()
@@ -326,15 +427,20 @@ def run_project_case(case):
                 pass
         s = None
         gc.collect()
-        out['desc'] = {'mods': desc['mods'], 'extras': desc['extras'], 'proj': proj}
+        out['desc'] = {'mods': desc['mods'], 'extras': desc['extras'], 'proj': proj,
+                       'files': sorted(desc['files'])}
         out['source'] = src
         todo = []
-        for (line, col, kind) in probes:
+        for (line, col, kind, rel) in probes:
             for m in METHODS:
-                todo.append((m, line, col, kind))
+                todo.append((m, line, col, kind, rel))
         rng.shuffle(todo)
-        todo = todo[:case['n_queries']]
-        for (m, line, col, kind) in todo:
+        # a third of the budget for queries that make jedi look into a function (value of a call, attribute
+        # of an instance, a parameter inside its function), the rest over everything
+        deep = [t for t in todo if t[3] in DEEP_KINDS and t[0] in DEEP_METHODS][:case['n_queries'] // 3]
+        rest = [t for t in todo if t not in deep][:max(0, case['n_queries'] - len(deep))]
+        todo = [t for t in todo if t in deep or t in rest]
+        for (m, line, col, kind, rel) in todo:
             oname, okw = options[rng.randrange(len(options))]
             with_path = rng.random() < 0.7
             before = host_state()
@@ -343,8 +449,12 @@ def run_project_case(case):
             err = None
             try:
                 project = jedi.Project(proj, **okw)
-                script = jedi.Script(src, path=main_path if with_path else None, project=project,
-                                     environment=env)
+                if rel is None:
+                    script = jedi.Script(src, path=main_path if with_path else None, project=project,
+                                         environment=env)
+                else:
+                    script = jedi.Script(desc['files'][rel], path=os.path.join(proj, rel) if with_path else None,
+                                         project=project, environment=env)
                 run_method(jedi, script, project, m, line, col)
             except Exception as e:
                 err = common.exc_site(e)
@@ -354,7 +464,15 @@ def run_project_case(case):
             script = project = None
             after = host_state()
             sent = sorted(os.listdir(desc['sent']))
-            q = {'method': m, 'line': line, 'column': col, 'kind': kind, 'option': oname,
+            host_imports = []
+            for ev, a in audit:
+                if ev == 'import' and a[1] is not None:
+                    rec_ = [a[0], [p_ for p_ in a[1] if p_ not in before['path']],
+                            [p_ for p_ in before['path'] if p_ not in a[1]]]
+                    if rec_ not in host_imports:
+                        host_imports.append(rec_)
+            q = {'method': m, 'line': line, 'column': col, 'kind': kind, 'option': oname, 'file': rel,
+                 'host_imports': host_imports,
                  'with_path': with_path, 'err': err, 'funnel': funnel, 'sentinels': sent,
                  'host_exec': sorted({fn for ev, fn in audit if ev == 'exec' and fn and str(fn).startswith(root)}),
                  'changed': []}
@@ -424,7 +542,11 @@ def run(ctx):
     auto = list(settings.auto_import_modules)
     rng = ctx.subrng('projects')
     n_proj = ctx.size(9, 120)
-    cases = [{'id': 'p%d' % i, 'seed': '%s-%d' % (ctx.seed, i), 'n_queries': ctx.size(28, 120)}
+    import jedi
+    host_names = host_import_names(os.path.dirname(os.path.abspath(jedi.__file__)))
+    ctx.notes.append('C12: names jedi imports in the host that the host cannot resolve: %s' % host_names)
+    cases = [{'id': 'p%d' % i, 'seed': '%s-%d' % (ctx.seed, i), 'n_queries': ctx.size(28, 120),
+              'host_names': host_names}
              for i in range(n_proj)]
     # corpus first: past findings, regenerated from their seeds
     cdir = os.path.join(common.CORPUS_DIR, 'C12')
@@ -434,10 +556,10 @@ def run(ctx):
                 with open(os.path.join(cdir, fn)) as f:
                     c = json.load(f)
                 cases.insert(0, {'id': 'corpus-' + fn[:-5], 'seed': c['seed'], 'n_queries': ctx.size(20, 60),
-                                 'env_lists_project': bool(c.get('env_lists_project'))})
+                                 'env_lists_project': bool(c.get('env_lists_project')), 'host_names': host_names})
     # the environment itself lists the project (PYTHONPATH): the documented exception of the funnel theorem
     cases.append({'id': 'envlists', 'seed': '%s-envlists' % ctx.seed, 'n_queries': ctx.size(20, 60),
-                  'env_lists_project': True})
+                  'env_lists_project': True, 'host_names': host_names})
     t0 = time.time()
     with mp.get_context('fork').Pool(min(ctx.size(11, 16), len(cases)), maxtasksperchild=4) as pool:
         results = pool.map(_worker, cases, chunksize=1)
@@ -449,10 +571,11 @@ def run(ctx):
         how = ('build the project described in `project` under a scratch directory (every file writes a sentinel '
                'when imported), jedi.Script(source, path=..., project=jedi.Project(proj, **option), '
                'environment=Environment(helper_wrapper/python)).<method>(line, column); ./check C12 --replay <file>')
-        base = {'seed': c['seed'], 'project': r.get('desc'), 'env_lists_project': bool(c.get('env_lists_project'))}
+        base = {'seed': c['seed'], 'project': r.get('desc'), 'env_lists_project': bool(c.get('env_lists_project')),
+                'host_names': c.get('host_names'), 'n_queries': c['n_queries']}
         for q in r['queries']:
             case_d = dict(base, method=q['method'], line=q['line'], column=q['column'], option=q['option'],
-                          with_path=q['with_path'])
+                          with_path=q['with_path'], file=q['file'] or 'main_buffer.py')
             if q['err'] is not None:
                 ctx.count('raised', (c['seed'], q['method'], q['line']), nontrivial=False,
                           bucket='%s@%s' % tuple(q['err']))
@@ -552,8 +675,8 @@ def run(ctx):
 
 def replay(ctx, payload):
     inp = payload['input']
-    case = {'id': 'replay', 'seed': inp['seed'], 'n_queries': 10 ** 6,
-            'env_lists_project': inp.get('env_lists_project', False)}
+    case = {'id': 'replay', 'seed': inp['seed'], 'n_queries': inp.get('n_queries', 10 ** 6),
+            'env_lists_project': inp.get('env_lists_project', False), 'host_names': inp.get('host_names') or ()}
     r = run_project_case(case)
     for q in r['queries']:
         if q['sentinels'] or q['host_exec'] or q['changed']:
